@@ -126,6 +126,31 @@ func wsMutate(t *rapid.T, src string) string {
 	if start < 0 {
 		return src
 	}
+	if rapid.IntRange(0, 5).Draw(t, "topComment") == 0 {
+		// a top-level // comment line gets indented (gofmt will take the indentation away again)
+		lines := strings.Split(src, "\n")
+		var cands, templs []int
+		for i, l := range lines {
+			if strings.HasPrefix(l, "//") {
+				cands = append(cands, i)
+			}
+			if strings.HasPrefix(l, "templ ") && i > 0 {
+				templs = append(templs, i)
+			}
+		}
+		if len(templs) > 0 && rapid.Bool().Draw(t, "insertComment") {
+			// ... or a new, indented comment line is put directly in front of a template
+			i := templs[rapid.IntRange(0, len(templs)-1).Draw(t, "beforeTempl")]
+			ind := rapid.SampledFrom([]string{"\t", "  ", ""}).Draw(t, "newCommentIndent")
+			lines = append(lines[:i:i], append([]string{ind + "// about the template below"}, lines[i:]...)...)
+			return strings.Join(lines, "\n")
+		}
+		if len(cands) > 0 {
+			i := cands[rapid.IntRange(0, len(cands)-1).Draw(t, "topCommentLine")]
+			lines[i] = rapid.SampledFrom([]string{"\t", "  ", "\t\t"}).Draw(t, "topCommentIndent") + lines[i]
+			return strings.Join(lines, "\n")
+		}
+	}
 	head, src := src[:start], src[start:]
 	defer func() {}()
 	out := wsMutateBody(t, src)
@@ -154,6 +179,17 @@ func wsMutateBody(t *rapid.T, src string) string {
 			}
 		}
 		repl := rapid.SampledFrom([]string{"", " ", "\n", "\n\n", "\n\t\t", "  ", "\t"}).Draw(t, "repl")
+		if len(runs) > 2 && rapid.IntRange(0, 5).Draw(t, "join") == 0 {
+			// several consecutive runs collapse at once: nested elements, calls and expressions end
+			// up on one line
+			first := rapid.IntRange(0, len(runs)-2).Draw(t, "joinFrom")
+			last := min(len(runs)-1, first+rapid.IntRange(1, 5).Draw(t, "joinLen"))
+			sep := rapid.SampledFrom([]string{"", "", " "}).Draw(t, "joinSep")
+			for k := last; k >= first; k-- {
+				src = src[:runs[k].a] + sep + src[runs[k].b:]
+			}
+			continue
+		}
 		if len(runs) > 0 && rapid.IntRange(0, 3).Draw(t, "where") > 0 {
 			r := runs[rapid.IntRange(0, len(runs)-1).Draw(t, "run")]
 			src = src[:r.a] + repl + src[r.b:]
